@@ -9,7 +9,7 @@ import z3
 
 from . import smt
 from .calls import CallMixin, VOpaqueArr, VOpaqueBuf, parse_spec
-from .contract import (Arr, Arr2, Bool, Const, Contract, Int, LoopSpec, Obj, Opaque, Opt, Real, RecArr, Str)
+from .contract import (Arr, Arr2, Bool, Const, Contract, Int, LoopSpec, Obj, Opaque, Opt, Raw, Real, RecArr, Str)
 from .engine import Engine
 from .expr import ExprMixin
 from .source import ContractMismatch, OutOfSubset, _strip_doc
@@ -93,6 +93,7 @@ class Verifier(Engine, ExprMixin, StmtMixin, CallMixin):
         self.loops_seen = set()
         self.inlined = set()
         self.inline_ok = set()
+        self.inline_classes = set()
         self.param_vals = {}
         self.yield_hook_data = None
 
@@ -159,7 +160,7 @@ class Verifier(Engine, ExprMixin, StmtMixin, CallMixin):
             t = c.params.get(p)
             if p in case:
                 cv = case[p]
-                t2 = cv if isinstance(cv, (Int, Real, Arr, Arr2, Obj, Bool, Str, RecArr, Opaque)) else Const(cv)
+                t2 = cv if isinstance(cv, (Int, Real, Arr, Arr2, Obj, Bool, Str, RecArr, Opaque, Raw)) else Const(cv)
                 v = self.mk_param(p, t2, st)
             else:
                 v = self.mk_param(p, t, st)
